@@ -15,7 +15,7 @@ import sys
 
 sys.path.insert(0, os.path.dirname(os.path.dirname(os.path.abspath(__file__))))
 
-OPS = ["eval_sparse", "eval_dense", "eval_scalar", "alias", "rawref", "read", "pickle", "feed", "del", "gc"]
+OPS = ["eval_sparse", "eval_dense", "eval_scalar", "alias", "rawref", "read", "pickle", "feed", "del", "gc", "iter"]
 NAMES = ["x", "y", "z"]
 
 
@@ -188,10 +188,39 @@ def main():
                     kind, tid, obj = names[m]
                     if kind == "tensor":
                         rec["read"] = [len(obj.to_dok()), len(obj.taco_vals)]
+                    elif kind == "iter":
+                        # continue a read that was begun earlier (the tensor may have lost every other name since)
+                        got = []
+                        for _ in range(3):
+                            try:
+                                got.append(list(next(obj)))
+                            except StopIteration:
+                                # a finished iterator has released the tensor: it is no longer a user
+                                names[m] = ("spent", None, None)
+                                break
+                        rec["read"] = [repr(got)[:80]]
+                    elif kind == "spent":
+                        rec["read"] = ["spent iterator"]
                     else:
                         vp = ffi.cast("double*", obj.vals)
                         rec["read"] = [float(vp[0])]
                     del obj
+            elif op == "iter":
+                # a read in progress: an items() iterator that outlives the step (and possibly every name of
+                # the tensor); it is a user of the tensor's arrays until it is dropped
+                m = latest_tensor()
+                if m is not None:
+                    n = fresh_name()
+                    it = names[m][2].items()
+                    spent = False
+                    if rng.random() < 0.5:
+                        try:
+                            next(it)
+                        except StopIteration:
+                            spent = True  # a finished iterator has released the tensor: not a user any more
+                    names[n] = ("spent", None, None) if spent else ("iter", names[m][1], it)
+                    rec.update({"name": n, "source": m})
+                    del it
             elif op == "pickle":
                 m = latest_tensor()
                 if m is not None:
